@@ -285,27 +285,34 @@ impl<'a> PathSegmentsIter<'a> {
 
     pub(crate) fn has_valid_tangent(&self) -> bool {
         let mut iter = self.clone();
-        while let Some(segment) = iter.next() {
+        loop {
+            // The point the next segment starts from.
+            let prev = iter.last_point;
+            let segment = match iter.next() {
+                Some(segment) => segment,
+                None => break,
+            };
+
             match segment {
                 PathSegment::MoveTo(_) => {
                     return false;
                 }
                 PathSegment::LineTo(p) => {
-                    if iter.last_point == p {
+                    if prev == p {
                         continue;
                     }
 
                     return true;
                 }
                 PathSegment::QuadTo(p1, p2) => {
-                    if iter.last_point == p1 && iter.last_point == p2 {
+                    if prev == p1 && prev == p2 {
                         continue;
                     }
 
                     return true;
                 }
                 PathSegment::CubicTo(p1, p2, p3) => {
-                    if iter.last_point == p1 && iter.last_point == p2 && iter.last_point == p3 {
+                    if prev == p1 && prev == p2 && prev == p3 {
                         continue;
                     }
 
